@@ -61,7 +61,7 @@ void JudgeHull(const Manifold& h, const std::vector<vec3>& pts, bool exactDegene
     if (!in.count({v.x + 0.0, v.y + 0.0, v.z + 0.0})) { o.fail("hull:vertex-not-input", verif::fmt("hull vertex (%.17g,%.17g,%.17g) is not an input point", v.x, v.y, v.z)); return; }
   // quickhull discards points within its own epsilon (1e-7 * largest |coordinate|) of a face
   double eps = 2e-7 * scale;
-  bool finFace = false;
+  bool finFace = false, overlap = false;
   std::string finMsg;
   // Convexity in the solid sense: every non-sliver face lies in a supporting
   // plane.  Quickhull keeps collinear/coplanar input points as vertices and may
@@ -83,6 +83,7 @@ void JudgeHull(const Manifold& h, const std::vector<vec3>& pts, bool exactDegene
     V3 q(p.x, p.y, p.z);
     if (oracle::SurfaceDist(s, q) <= eps) continue;
     double w = oracle::Winding(s, q);
+    if (std::lround(w) > 1) { overlap = true; continue; }  // inside a region the folded faces enclose twice: still in the solid
     if (std::lround(w) != 1) { o.fail("hull:point-outside", verif::fmt("input point (%.17g,%.17g,%.17g) is outside the hull (winding %.6g, distance %.3g)", p.x, p.y, p.z, w, oracle::SurfaceDist(s, q))); return; }
   }
   // convexity of the solid: midpoints of input-point pairs are inside or on it
@@ -91,11 +92,13 @@ void JudgeHull(const Manifold& h, const std::vector<vec3>& pts, bool exactDegene
       V3 q((pts[i].x + pts[j].x) / 2, (pts[i].y + pts[j].y) / 2, (pts[i].z + pts[j].z) / 2);
       if (oracle::SurfaceDist(s, q) <= eps) continue;
       double w = oracle::Winding(s, q);
+      if (std::lround(w) > 1) { overlap = true; continue; }
       if (std::lround(w) != 1) { o.fail("hull:not-convex", verif::fmt("midpoint of input points %zu and %zu is outside the hull (winding %.6g)", i, j, w)); return; }
     }
   // a face that is not in a supporting plane while the solid is the right convex
   // set is a zero-volume fin reaching into the interior: known finding F14
-  if (finFace) { o.known("F14-hull-fin", "hull:not-supporting-plane", finMsg); return; }
+  if (finFace) { o.known("F14-hull-fin", "hull:not-supporting-plane", finMsg + (overlap ? " (the folded faces enclose some volume twice)" : "")); return; }
+  if (overlap) { o.fail("hull:self-overlap", "a point has winding number 2 although every face lies in a supporting plane"); return; }
   if (oracle::Volume(s) <= 0) { o.fail("hull:volume", "non-positive volume"); return; }
 }
 
